@@ -306,7 +306,7 @@ def harness_build(name, tags="verif", race=False, timeout=1200):
             open(mf, "w").write(txt)
             shutil.copy(os.path.join(REPO, "go.sum"), os.path.join(md, name + ".sum"))
             modargs = ["-modfile=" + mf]
-        cmd = ["go", "build"] + modargs + ["-tags", tags] + (["-race"] if race else []) + ["-o", out, "./cmd/" + name]
+        cmd = ["go", "build", "-trimpath"] + modargs + ["-tags", tags] + (["-race"] if race else []) + ["-o", out, "./cmd/" + name]
         rc, log = sh(cmd, cwd=hdir, timeout=timeout)
     return rc == 0, out, log
 
